@@ -92,6 +92,15 @@ func (c *Conv) Apply(inputs []tensor.Tensor) ([]tensor.Tensor, error) {
 	kernel := inputs[1]
 	bias := inputs[2]
 
+	nDims := len(x.Shape())
+	if nDims != NDims1DConvolution && nDims != NDims2DConvolution {
+		return nil, ops.ErrInvalidInput("the convolution operator currently only supports 1D or 2D convolution, i.e. shape [N x C x H (x W)]", c)
+	}
+
+	if len(kernel.Shape()) != nDims {
+		return nil, ops.ErrInvalidInput("the kernel must have shape [M x C x kH (x kW)] for an input of shape [N x C x H (x W)]", c)
+	}
+
 	if len(c.dilations) == 0 {
 		c.setDefaultDilations(x)
 	}
@@ -108,6 +117,17 @@ func (c *Conv) Apply(inputs []tensor.Tensor) ([]tensor.Tensor, error) {
 		c.setDefaultStrides(x)
 	}
 
+	nSpatialDims := nDims - nNonSpatialDims
+	if len(c.dilations) != nSpatialDims || len(c.strides) < nSpatialDims || len(c.kernelShape) < nSpatialDims || len(c.pads) < 2*nSpatialDims {
+		return nil, ops.ErrInvalidInput("dilations, strides, kernel_shape and pads must match the number of spatial dimensions", c)
+	}
+
+	for i := 0; i < nSpatialDims; i++ {
+		if c.dilations[i] < 1 || c.strides[i] < 1 || c.pads[i] < 0 || c.pads[i+nSpatialDims] < 0 {
+			return nil, ops.ErrInvalidInput("dilations and strides must be positive and pads must not be negative", c)
+		}
+	}
+
 	kernel, err := c.getDilatedKernel(kernel)
 	if err != nil {
 		return nil, err
@@ -115,6 +135,13 @@ func (c *Conv) Apply(inputs []tensor.Tensor) ([]tensor.Tensor, error) {
 
 	if c.autoPad != NotSet {
 		c.setPaddingWithAutoPad(x)
+	}
+
+	// The (dilated) kernel must fit in the padded input.
+	for _, outputDim := range c.getOutputShape(x, kernel) {
+		if outputDim < 1 {
+			return nil, ops.ErrInvalidInput("the kernel does not fit in the padded input", c)
+		}
 	}
 
 	var out tensor.Tensor
